@@ -1,0 +1,45 @@
+//go:build verif
+
+package tree
+
+// Read-only accessors for the verification harness (build tag `verif` only). They expose raw facts
+// about the node structure; every check on those facts lives on the harness side. Nothing here
+// writes to the tree, and the slices returned alias the node arrays and must not be written to.
+
+// VerifNode is a read-only handle on one B-tree node. Handles are comparable with ==.
+type VerifNode[K any, V any] struct {
+	x *node[K, V]
+}
+
+// VerifRoot returns a handle on the current root node.
+func (m Map[K, V]) VerifRoot() VerifNode[K, V] { return VerifNode[K, V]{m.t.root} }
+
+// VerifGen returns the tree's structural-modification counter.
+func (m Map[K, V]) VerifGen() int { return m.t.gen }
+
+// VerifRoot returns a handle on the current root node.
+func (s Set[T]) VerifRoot() VerifNode[T, struct{}] { return VerifNode[T, struct{}]{s.t.root} }
+
+// VerifGen returns the tree's structural-modification counter.
+func (s Set[T]) VerifGen() int { return s.t.gen }
+
+// Nil reports whether the handle refers to no node.
+func (n VerifNode[K, V]) Nil() bool { return n.x == nil }
+
+// N returns the node's key count field.
+func (n VerifNode[K, V]) N() int { return int(n.x.n) }
+
+// Keys returns all key slots of the node (used and unused).
+func (n VerifNode[K, V]) Keys() []K { return n.x.keys[:] }
+
+// Values returns all value slots of the node (used and unused).
+func (n VerifNode[K, V]) Values() []V { return n.x.values[:] }
+
+// NumChildSlots returns the number of child slots of a node.
+func (n VerifNode[K, V]) NumChildSlots() int { return len(n.x.children) }
+
+// Child returns the handle in child slot i (possibly Nil).
+func (n VerifNode[K, V]) Child(i int) VerifNode[K, V] { return VerifNode[K, V]{n.x.children[i]} }
+
+// Parent returns the node's parent link (Nil for the root).
+func (n VerifNode[K, V]) Parent() VerifNode[K, V] { return VerifNode[K, V]{n.x.parent} }
